@@ -18,7 +18,9 @@ package server
 
 import (
 	"bufio"
+	"bytes"
 	"fmt"
+	"io"
 	"os"
 	"path/filepath"
 	"sort"
@@ -196,15 +198,18 @@ type vKit struct {
 	// minVia: "server" = clustering.min.insync.replicas of every server, "stream" = the stream's own
 	// override in its CreateStream config (the server setting stays at its default 1)
 	minVia string
+	// restartVia: "replay" = a restarted server replays the committed operations, "snapshot" = it is
+	// restored from a metadata snapshot of a live replica (when there is one)
+	restartVia string
 	// wideEvery > 0: every message whose number is a multiple of it is stored as a record of
 	// twice the plain size (replication responses are packed by size)
 	wideEvery int
-	fetchMax int
-	batch    int
-	gapMs    int
-	lagMs    int
-	pending  map[string][]vRaftOp // ops committed but not yet applied by a lagging follower
-	msgSize  int64
+	fetchMax  int
+	batch     int
+	gapMs     int
+	lagMs     int
+	pending   map[string][]vRaftOp // ops committed but not yet applied by a lagging follower
+	msgSize   int64
 }
 
 type vRepRec struct {
@@ -804,15 +809,57 @@ func (k *vKit) crash(r string) string {
 	return ""
 }
 
+// vSnapSink collects a persisted FSM snapshot in memory.
+type vSnapSink struct {
+	bytes.Buffer
+}
+
+func (k *vSnapSink) Close() error  { return nil }
+func (k *vSnapSink) ID() string    { return "verif-kit" }
+func (k *vSnapSink) Cancel() error { return nil }
+
+// snapshotOf returns the persisted metadata snapshot of a live replica that has applied every
+// committed operation (nil if there is none).
+func (k *vKit) snapshotOf() []byte {
+	for _, id := range k.ids {
+		s, ok := k.srv[id]
+		if !ok || len(k.pending[id]) > 0 {
+			continue
+		}
+		fs, err := s.Snapshot()
+		if err != nil {
+			continue
+		}
+		sink := &vSnapSink{}
+		if err := fs.Persist(sink); err != nil {
+			continue
+		}
+		return sink.Bytes()
+	}
+	return nil
+}
+
 func (k *vKit) restart(r string) string {
 	if _, ok := k.srv[r]; ok {
 		return "up"
 	}
+	var snap []byte
+	if k.restartVia == "snapshot" {
+		// the restarted server gets the metadata from a Raft snapshot (taken now by a live replica)
+		// instead of replaying the operations one by one
+		snap = k.snapshotOf()
+	}
 	s := k.newServer(r)
 	k.srv[r] = s
-	for _, op := range k.ops {
-		if err := k.applyTo(r, op, true); err != nil {
-			return "replay-error:" + err.Error()
+	if snap != nil {
+		if err := s.Restore(io.NopCloser(bytes.NewReader(snap))); err != nil {
+			return "restore-error:" + err.Error()
+		}
+	} else {
+		for _, op := range k.ops {
+			if err := k.applyTo(r, op, true); err != nil {
+				return "replay-error:" + err.Error()
+			}
 		}
 	}
 	if _, _, err := s.finishedRecovery(k.idx); err != nil {
@@ -1139,6 +1186,7 @@ func TestVerifReplication(t *testing.T) {
 		k := newVKit(t, ns, gate, b.ID, int(vIntDef(b.Cfg, "minISR", 2)), int(vIntDef(b.Cfg, "fetchMax", 2)), ids, int(vIntDef(b.Cfg, "batch", 1)))
 		k.gapMs = int(vIntDef(b.Cfg, "gapMs", 0))
 		k.minVia = vStrDef(b.Cfg, "minVia", "server")
+		k.restartVia = vStrDef(b.Cfg, "restartVia", "replay")
 		k.wideEvery = int(vIntDef(b.Cfg, "wideEvery", 0))
 		k.lagMs = int(vIntDef(b.Cfg, "lagMs", 0))
 		k.create()
